@@ -88,8 +88,8 @@ func addVehicles(
 		return nil, fmt.Errorf("invalid duration matrix type: %T", matrix)
 	}
 
-	durationGroupsExpression := NewDurationGroupsExpression(model.NumberOfStops(), len(input.Vehicles))
 	distanceExpression := distanceExpression(input.DistanceMatrix)
+	numberOfStops := model.NumberOfStops()
 
 	inputVehicleHasAlternateStops := false
 
@@ -104,6 +104,9 @@ func addVehicles(
 		if travelDurationMap[inputVehicle.ID] != nil {
 			td = *travelDurationMap[inputVehicle.ID]
 		}
+		// one service duration expression per vehicle: the stop duration
+		// multiplier of a vehicle must only scale its own durations
+		durationGroupsExpression := NewDurationGroupsExpression(numberOfStops, len(input.Vehicles))
 		vehicleType, err := newVehicleType(
 			inputVehicle,
 			model,
